@@ -1,0 +1,76 @@
+//go:build verif
+
+// Contracts for package didkey, checked by /verif/govc (comment-only; not part of any normal build).
+
+package didkey
+
+//@ func base58.DecodeAlphabet
+//@   trusted
+//@   benign
+//@ func bytes.NewReader
+//@   trusted
+//@   benign
+//@   ensures result != nil
+//@ func encoding/binary.ReadUvarint
+//@   trusted
+//@   benign
+//@ func io.ReadAll
+//@   trusted
+//@   benign
+//@ func x509.ParsePKCS1PublicKey
+//@   trusted
+//@   benign
+//@   ensures isNilIface(result.1) ==> result.0 != nil
+//@ func (*rsa.PublicKey).Size
+//@   trusted
+//@   pure heap
+//@ func elliptic.P256
+//@   trusted
+//@   benign
+//@ func elliptic.P384
+//@   trusted
+//@   benign
+//@ func elliptic.P521
+//@   trusted
+//@   benign
+//@ func unmarshalEC
+//@   prop C18
+//@   assume-benign
+//@ func ssi.MustParseURI
+//@   trusted
+//@   benign
+//@ func did.DIDContextV1URI
+//@   trusted
+//@   benign
+//@ func did.NewVerificationMethod
+//@   trusted
+//@   benign
+//@   ensures isNilIface(result.1) ==> result.0 != nil
+//@ func (*did.Document).AddAssertionMethod
+//@   trusted
+//@   modifies *doc
+//@   ensures same(doc.ID, old(doc.ID))
+//@ func (*did.Document).AddAuthenticationMethod
+//@   trusted
+//@   modifies *doc
+//@   ensures same(doc.ID, old(doc.ID))
+//@ func (*did.Document).AddKeyAgreement
+//@   trusted
+//@   modifies *doc
+//@   ensures same(doc.ID, old(doc.ID))
+//@ func (*did.Document).AddCapabilityDelegation
+//@   trusted
+//@   modifies *doc
+//@   ensures same(doc.ID, old(doc.ID))
+//@ func (*did.Document).AddCapabilityInvocation
+//@   trusted
+//@   modifies *doc
+//@   ensures same(doc.ID, old(doc.ID))
+
+// ---- C18: the did:key document is computed from the identifier alone and carries that identifier ----
+//@ func (Resolver).Resolve
+//@   prop C18 C19
+//@   safety
+//@   ensures [document-id-is-the-did] isNilIface(result.2) ==> result.0 != nil && same(result.0.ID, id) && id.Method == MethodName
+//@   ensures [key-decoded-from-the-identifier] isNilIface(result.2) ==> isNilIface(ret(call base58.DecodeAlphabet #1).1) && len(id.ID) > 0 && id.ID[0] == 'z'
+//@        && same(arg(call did.NewVerificationMethod #1, 0).DID, id) && arg(call did.NewVerificationMethod #1, 0).Fragment == id.ID
